@@ -62,6 +62,12 @@ def make_obj(rng, typ, colors, types=None, depth=0):
         return Exit(rng.choice(colors))
     if typ.__name__ == 'Curtain':
         return typ(rng.random() < 0.5)
+    if typ.__name__ == 'Countdown':
+        return typ(rng.choice([0, 1, 2, 255, 256, 257, 299]))
+    if typ.__name__ == 'Gate':
+        return typ(rng.choice(list(Door.Status)), rng.choice(colors))
+    if typ.__name__ == 'GoalExit':
+        return typ(rng.choice(colors))
     if typ is Box:
         inner = [t for t in (types or GRID_TYPES) if t is not Box or depth < 2]
         if not inner:
